@@ -431,6 +431,20 @@ def make_cases(ctx):
         cases.append({"id": f"C04-l-{form}-{len(cases)}", "source": PRELUDE + body, "dump": {"per": 8, "nodes": 100}, "exports": ["v_"],
                       "meta": {"mode": "term", "block": "least_common_type", "pos": form, "R": shown(A), "S": shown(B), "want": want,
                                "type": shown(ty) if (want == ACC and ty not in (None, "UNS") and not has_dangling(ty)) else None}})
+    # ---- compounds are nominal *per declaration*: a compound of the same name declared in another scope is a different type
+    for outer, inner, use, want in [
+        ("struct P_(x: int)", "struct P_(x: str)", "fn first_(p: P_)->str{ p::x }  first_(mk_()).len()", REJ),
+        ("struct P_(x: int)", "struct P_(x: int)", "fn first_(p: P_)->int{ p::x }  first_(mk_())", UNS),     # the same declaration twice: structurally equal, harmless either way
+        ("struct P_(x: int)", "struct P_(x: int, y: int)", "fn first_(p: P_)->int{ p::y }  first_(mk_())", REJ),
+        ("struct P_(x: int)", "union P_(x: int, y: str)", "fn first_(p: P_)->int{ p!:x }  first_(mk_())", REJ),
+        ("struct P_<A>(x: A)", "struct P_<A>(x: Sequence<A>)", "fn first_(p: P_<int>)->int{ p::x.len() }  first_(mk_())", REJ),
+        ("struct P_(x: int)", "struct Q_(x: int)", "fn first_(p: P_)->int{ p::x }  first_(mk_())", ACC),
+        ("struct P_(x: int)", "struct P_(x: str)", "let v_: P_ = mk_(); 0", REJ),
+        ("struct P_(x: int)", "struct P_(x: str)", "[P_('a'), mk_()].len()", REJ),
+    ]:
+        mk = "fn mk_()->P_<int>{ P_(7) }" if "<A>" in outer else "fn mk_()->P_{ P_(7) }"
+        cases.append({"id": f"C04-n-{len(cases)}", "source": f"{outer}\n{mk}\nfn host_()->int{{ {inner}  {use} }}\nlet v_ = host_();", "dump": {"per": 8, "nodes": 100},
+                      "meta": {"mode": "term", "block": "nominal_per_declaration", "pos": "inner_scope_compound", "R": inner, "S": outer, "want": want}})
     # ---- the dangling generic parameter (probe for the known finding)
     for body, ty in [("let v_ = [G1(1), G1(error('e'))];", "Sequence<G1<int>>"), ("let v_ = G1(error('e'));", "G1<?>"), ("let v_ = [].to_array();", "Sequence<?>"),
                      ("let v_: Sequence<int> = [].to_array();", "Sequence<int>"), ("fn id_<T>(a: T)->T{a}\nlet v_ = [id_([]), [1]];", "Sequence<Sequence<int>>")]:
